@@ -467,6 +467,10 @@ class BlackbirdProgram:
                             "{}={}{}{}j".format(k, v.real, "+-"[int(v.imag < 0)], np.abs(v.imag))
                         )
 
+                    elif isinstance(v, sym.Expr):
+                        # kwarg contains free parameters
+                        kwargs.append("{}={}".format(k, sympy_to_blackbird(v)))
+
                     else:
                         kwargs.append("{}={}".format(k, v))
 
